@@ -6,6 +6,7 @@
 
 
 from collections import defaultdict
+import copy
 from itertools import chain
 
 import nbformat
@@ -278,7 +279,7 @@ def get_outputs_and_note(base, removes, patches):
         suboutputs = [patch(base, e.diff)]
     else:
         note = " <unchanged>"
-        suboutputs = [base]
+        suboutputs = [copy.deepcopy(base)]
     return suboutputs, note
 
 
@@ -380,8 +381,9 @@ def make_inline_cell_conflict(base_cells, local_diff, remote_diff):
     lkeep = max(0, lremove - rremove)
     rkeep = max(0, rremove - lremove)
 
-    lcells = local_diff[0].valuelist + base_cells[start : start + lkeep]
-    rcells = remote_diff[0].valuelist + base_cells[start : start + rkeep]
+    # Copy the base cells, so that the decisions do not share structure with base
+    lcells = local_diff[0].valuelist + copy.deepcopy(base_cells[start : start + lkeep])
+    rcells = remote_diff[0].valuelist + copy.deepcopy(base_cells[start : start + rkeep])
 
     cells = []
     cells.append(cell_marker("%s %s" % (m0, local_title)))
